@@ -811,6 +811,12 @@ func writeReplay(dir, prop string, f *failure, e *Engine) string {
 			}
 		}
 	}
+	if f.Obl == nil && (strings.HasSuffix(f.Name, "#vcgen") || strings.HasSuffix(f.Name, "#target")) {
+		// the contract no longer fits the function (no VC could be generated): the
+		// function's driver, if it has one, can still say whether the real code
+		// breaks its clause on a concrete input
+		f.Confirmed = tryReplay(e, f, rec)
+	}
 	b, _ := json.MarshalIndent(rec, "", " ")
 	os.WriteFile(path, b, 0o644)
 	return path
